@@ -223,7 +223,14 @@ def run_instrs(h, cpu, instrs, children=()):
     ('_child', k) stands for the code of child expression k: by the child's generator contract it pushes one
     cell of the child's static type (children[k]).  Returns None or the Outcome of the first instruction that raised."""
     for ins in instrs:
-        op, *args = ins.final if hasattr(ins, 'final') else ins
+        if isinstance(ins, ChildInstr) or isinstance(ins, tuple):
+            op, *args = ins.final if isinstance(ins, ChildInstr) else ins
+        else:
+            # QvmInstr.final inspects the operand (short forms push0 .. push2): through the interpreter
+            fo = h.call(type(ins).final.fget, ins)
+            if not fo.returned:
+                return fo
+            op, *args = fo.value
         if op == '_child':
             src = children[args[0]]
             c = object.__new__(CellValue)
